@@ -78,10 +78,11 @@ type evLog struct {
 	accepts map[string]int64 // upstream -> accepted connections
 	closes  map[string]int64 // upstream -> closed connections
 	attempt map[string]int   // token -> attempts seen (across all upstreams)
+	byTok   map[string][]int // token -> indices into ups (upsFor must not scan the whole log under the lock every time)
 }
 
 func newEvLog() *evLog {
-	return &evLog{accepts: map[string]int64{}, closes: map[string]int64{}, attempt: map[string]int{}}
+	return &evLog{accepts: map[string]int64{}, closes: map[string]int64{}, attempt: map[string]int{}, byTok: map[string][]int{}}
 }
 
 func (l *evLog) nextAttempt(token string) int {
@@ -95,6 +96,7 @@ func (l *evLog) addUp(e upEvent) {
 	l.mu.Lock()
 	l.seq++
 	e.Seq = l.seq
+	l.byTok[e.Token] = append(l.byTok[e.Token], len(l.ups))
 	l.ups = append(l.ups, e)
 	l.mu.Unlock()
 }
@@ -125,9 +127,9 @@ func (l *evLog) upsFor(token string) []upEvent {
 	l.mu.Lock()
 	defer l.mu.Unlock()
 	var out []upEvent
-	for _, e := range l.ups {
-		if e.Token == token {
-			out = append(out, e)
+	for _, i := range l.byTok[token] {
+		if i < len(l.ups) && l.ups[i].Token == token {
+			out = append(out, l.ups[i])
 		}
 	}
 	return out
